@@ -30,6 +30,7 @@ func c12(c *eng.Ctx, r *eng.Report) {
 		"R12.3 the readOnly flag is only set/reset inside Run under `readOnly && !in.readOnly`; " +
 		"R12.4 AccountDB.Prepare re-initialises every per-transaction scratch field and the block executor calls it before each transaction's BeforeExecute and reads logs by the same hash; " +
 		"R12.5 every raw state mutation is preceded by its journal entry on every path (C04's R4.2 re-run: RevertToSnapshot can only undo what was journaled). " +
+		"R12.11 a call frame's memory is allocated for that frame: the memory bound to the frame in (*EVMInterpreter).Run is the result of NewMemory() in that call — RETURN hands out a window on the frame's memory and create() stores it as the new contract's code, so a recycled buffer lets a later frame of the transaction (even a static or a failing one) overwrite code that was deployed earlier, outside the journal; " +
 		"R12.10 a creation that cannot pay the code deposit installs no code: in (*EVM).create SetCode(address, ret) is reached only across the edge on which contract.UseGas(createDataGas) answered true (this code base does not revert the frame on ErrCodeStoreOutOfGas, so code stored before the charge would stay installed and callable while CREATE reports failure); " +
 		"R12.9 a creation that is refused before it has a frame changes nothing: the creator's nonce is written only inside (*EVM).create (and AuthCall's reviewed bump), there only after the call-depth test and the CanTransfer test have passed, and the wrappers Create/Create2 write no state themselves — a CREATE with an endowment above the balance, or at depth 1025, leaves the nonce and the state root as they were; " +
 		"R12.7 a frame's snapshot is taken before the frame changes anything: in Call, CallCode, DelegateCall, StaticCall, AuthCall and create every call that can reach a raw state setter (value transfer, account creation — directly or through a helper) is dominated by StateDB.Snapshot(); the reviewed exceptions are the nonce bumps of create and AuthCall and create's access-list entry, which survive a failed frame by design; " +
@@ -61,6 +62,7 @@ func c12(c *eng.Ctx, r *eng.Report) {
 	c12SnapshotFirst(c, r)
 	c12NonceAfterChecks(c, r)
 	c12CodeAfterDeposit(c, r)
+	c12FrameOwnsItsMemory(c, r)
 	// R12.8: what the journal records must stay what it was when recorded — the key slice of a balance write is
 	// the caller's own (C06's R6.9 under this property's id: a frame that moved value and fails is undone slot by slot)
 	c06BalanceKeyFreshAs(c, r, "R12.8")
@@ -819,5 +821,34 @@ func c12CodeAfterDeposit(c *eng.Ctx, r *eng.Report) {
 	}
 	if n == 0 {
 		r.Fail(rule, "create:code-after-deposit", c.Pos(create.Pos()), "create() no longer calls StateDB.SetCode: the rule has lost its anchor")
+	}
+}
+
+// c12FrameOwnsItsMemory: see R12.11.
+func c12FrameOwnsItsMemory(c *eng.Ctx, r *eng.Report) {
+	const rule = "R12.11"
+	r.Min(rule, 1)
+	run := c.Func("vm", "(*EVMInterpreter).Run")
+	if !r.Anchor(run != nil, rule, "vm.(*EVMInterpreter).Run") {
+		return
+	}
+	n := 0
+	for _, b := range run.Blocks {
+		for _, in := range b.Instrs {
+			st, ok := in.(*ssa.Store)
+			if !ok {
+				continue
+			}
+			if t, f := eng.FieldOf(st.Addr); f != "memory" || !strings.HasSuffix(t, "callCtx") {
+				continue
+			}
+			n++
+			call, isCall := eng.ResolveLocal(st.Val).(*ssa.Call)
+			fresh := isCall && call.Call.StaticCallee() != nil && call.Call.StaticCallee().Name() == "NewMemory"
+			r.Check(fresh, rule, "frame-memory:fresh", c.Pos(st.Pos()), "the frame's memory is NewMemory()", "Run binds "+eng.Desc(st.Val)+" as the frame's memory instead of a Memory allocated for this frame: opReturn returns a window on that memory and create() installs it as code, so the code of a contract created earlier in the transaction aliases a buffer that later frames write — a STATICCALL callee or a frame that fails afterwards changes the deployed code, and no journal entry restores it")
+		}
+	}
+	if n == 0 {
+		r.Fail(rule, "frame-memory:none", c.Pos(run.Pos()), "Run no longer stores callCtx.memory: the rule has lost its anchor")
 	}
 }
